@@ -505,6 +505,8 @@ func errDisciplineSeen(c *Check) {
 	emptyRangeSeen(c, fis)
 	directiveDestinationsSeen(c, fis)
 	arrayCopyStoreSeen(c, fis)
+	inPlaceFilterSeen(c, fis)
+	timerRearmedSeen(c, fis)
 	c.Rule("E4", "the value of a two-valued type assertion, map lookup or channel receive is not read where its ok flag is false (there it is the zero value: a nil connection, an empty entitlement, reply code 0)", 0)
 	for _, fi := range fis {
 		obs := commaOkSites(c.P, fi)
@@ -802,8 +804,8 @@ var propertyPackages = map[string][]string{
 	"C11": {"internal/limits", "internal/limits/limiters", "internal/endpoint/smtp", "internal/target/remote"},
 	"C12": {"internal/target/queue"},
 	"C13": {"internal/target/remote", "framework/dns", "framework/future"},
-	"C14": {"internal/auth", "internal/auth/pass_table", "internal/auth/sasllogin", "internal/authz", "internal/endpoint/smtp"},
-	"C15": {"internal/check/authorize_sender", "internal/authz", "internal/msgpipeline", "framework/address"},
+	"C14": {"internal/auth", "internal/auth/pass_table", "internal/auth/sasllogin", "internal/authz", "internal/endpoint/smtp", "internal/table"},
+	"C15": {"internal/check/authorize_sender", "internal/authz", "internal/msgpipeline", "framework/address", "internal/table"},
 	"C16": {"framework/exterrors", "internal/endpoint/smtp", "internal/smtpconn", "internal/target/queue", "internal/target/remote", "framework/config/module"},
 	"C17": {"framework/address", "framework/dns"},
 	"C18": {"internal/dsn", "internal/target/queue"},
